@@ -21,6 +21,9 @@ def util_ulen_decorators : List String := []
 /-- the signature of dataiter/util.py: ulen: parameters in order, with the source text of their defaults -/
 def util_ulen_signature : List String := ["string"]
 
+/-- the calls of dataiter/util.py: ulen in the order Python makes them along the source text -/
+def util_ulen_call_order : List String := ["wcwidth.wcswidth"]
+
 /-- dataiter/util.py: upad (sha256 of the function source: 1cad23c314dd92fd) -/
 def util_upad (truth : Term → Bool) : Out :=
   let width' : Term := (Term.app "max" [(Term.app "GeneratorExp" [(Term.app "ulen" [(Term.sym "x")]), (Term.app "in" [(Term.sym "x"), (Term.sym "strings"), (Term.app "if" [])])])]);
@@ -34,6 +37,9 @@ def util_upad_decorators : List String := ["deco.listify"]
 /-- the signature of dataiter/util.py: upad: parameters in order, with the source text of their defaults -/
 def util_upad_signature : List String := ["strings", "*", "align='right'"]
 
+/-- the calls of dataiter/util.py: upad in the order Python makes them along the source text -/
+def util_upad_call_order : List String := ["ulen", "max", "ulen"]
+
 /-- dataiter/util.py: utruncate (sha256 of the function source: a1a737991414518e) -/
 def util_utruncate (truth : Term → Bool) : Out :=
   let eff0 : Term := (Term.app "for" [(Term.sym "i"), (Term.app "range" [(Term.int (1 : Int)), (Term.app "len" [(Term.sym "string")])]), (Term.app "block" [(Term.app "if" [(Term.app "Gt" [(Term.app "ulen" [(Term.app "getitem" [(Term.sym "string"), (Term.app "slice" [(Term.sym "None"), (Term.sym "i")])])]), (Term.sym "width")]), (Term.app "block" [(Term.app "return" [(Term.app "getitem" [(Term.sym "string"), (Term.app "slice" [(Term.sym "None"), (Term.app "Sub" [(Term.sym "i"), (Term.int (1 : Int))])])])])]), (Term.app "block" [])])])]);
@@ -44,6 +50,9 @@ def util_utruncate_decorators : List String := []
 
 /-- the signature of dataiter/util.py: utruncate: parameters in order, with the source text of their defaults -/
 def util_utruncate_signature : List String := ["string", "width"]
+
+/-- the calls of dataiter/util.py: utruncate in the order Python makes them along the source text -/
+def util_utruncate_call_order : List String := ["len", "range", "ulen"]
 
 /-- dataiter/util.py: format_floats (sha256 of the function source: 541a2dd8cc450cd9) -/
 def util_format_floats (truth : Term → Bool) (ksep_is_None : Bool) : Out :=
@@ -71,6 +80,9 @@ def util_format_floats_decorators : List String := []
 
 /-- the signature of dataiter/util.py: format_floats: parameters in order, with the source text of their defaults -/
 def util_format_floats_signature : List String := ["seq", "ksep=None"]
+
+/-- the calls of dataiter/util.py: format_floats in the order Python makes them along the source text -/
+def util_format_floats_call_order : List String := ["abs", "abs", "any", "f", "count_digits", "max", "max", "max", "min", "f'{{:,.{precision}f}}'.format", "f'{{:,.{precision}f}}'.format(x).replace"]
 
 /-- dataiter/vector.py: Vector.to_strings (sha256 of the function source: 91940b4f3d66bd0d) -/
 def Vector_to_strings (truth : Term → Bool) (ksep_is_None : Bool) : Out :=
@@ -136,6 +148,9 @@ def Vector_to_strings_decorators : List String := []
 /-- the signature of dataiter/vector.py: Vector.to_strings: parameters in order, with the source text of their defaults -/
 def Vector_to_strings_signature : List String := ["self", "*", "ksep=None", "quote=True", "pad=False", "truncate_width=inf"]
 
+/-- the calls of dataiter/vector.py: Vector.to_strings in the order Python makes them along the source text -/
+def Vector_to_strings_call_order : List String := ["self.__class__.fast", "self.is_float", "util.format_floats", "pad", "self.__class__.fast", "self.is_integer", "self.is_timedelta", "'{:,d}'.format", "'{:,d}'.format(x).replace", "pad", "self.__class__.fast", "self.is_object", "str", "len", "range", "strings[i].splitlines", "util.ulen", "util.utruncate", "pad", "self.__class__.fast", "self.is_string", "quote", "len", "range", "strings[i].splitlines", "util.ulen", "util.utruncate", "pad", "self.__class__.fast", "str", "pad", "self.__class__.fast"]
+
 /-- dataiter/vector.py: Vector.to_string (sha256 of the function source: 11df0cd140949f63) -/
 def Vector_to_string (truth : Term → Bool) (max_elements_is_None : Bool) : Out :=
   let print_width' : Term := (Term.app "util.get_print_width" []);
@@ -184,6 +199,9 @@ def Vector_to_string_decorators : List String := []
 /-- the signature of dataiter/vector.py: Vector.to_string: parameters in order, with the source text of their defaults -/
 def Vector_to_string_signature : List String := ["self", "*", "max_elements=None"]
 
+/-- the calls of dataiter/vector.py: Vector.to_string in the order Python makes them along the source text -/
+def Vector_to_string_call_order : List String := ["util.get_print_width", "self[:max_elements].to_strings", "add_string_element", "add_string_element", "add_string_element", "len", "x.strip", "' '.join", "'\\n'.join"]
+
 /-- dataiter/data_frame.py: DataFrame.to_string (sha256 of the function source: a45e730483bef674) -/
 def DataFrame_to_string (truth : Term → Bool) : Out :=
   if (!truth (Term.sym "self")) then
@@ -219,6 +237,9 @@ def DataFrame_to_string_decorators : List String := []
 /-- the signature of dataiter/data_frame.py: DataFrame.to_string: parameters in order, with the source text of their defaults -/
 def DataFrame_to_string_signature : List String := ["self", "*", "max_rows=None", "max_width=None", "truncate_width=None"]
 
+/-- the calls of dataiter/data_frame.py: DataFrame.to_string in the order Python makes them along the source text -/
+def DataFrame_to_string_call_order : List String := ["util.get_print_width", "min", "str", "str", "column[:n].to_strings", "util.upad", "self.items", "columns.values", "util.ulen", "column.insert", "str", "range", "util.upad", "columns.keys", "iter", "next", "' '.join", "columns.pop", "zip", "columns.items", "list", "util.ulen", "len", "range", "rows_to_print.append", "rows_to_print.append", "rows_to_print.append", "'\\n'.join"]
+
 /-- dataiter/list_of_dicts.py: ListOfDicts.to_string (sha256 of the function source: 663c6277011aea63) -/
 def ListOfDicts_to_string (truth : Term → Bool) (max_items_is_None : Bool) : Out :=
   if max_items_is_None then
@@ -242,5 +263,8 @@ def ListOfDicts_to_string_decorators : List String := []
 
 /-- the signature of dataiter/list_of_dicts.py: ListOfDicts.to_string: parameters in order, with the source text of their defaults -/
 def ListOfDicts_to_string_signature : List String := ["self", "*", "max_items=None"]
+
+/-- the calls of dataiter/list_of_dicts.py: ListOfDicts.to_string in the order Python makes them along the source text -/
+def ListOfDicts_to_string_call_order : List String := ["self.head", "self.head(max_items).to_json", "len", "len"]
 
 end DI.Gen
